@@ -646,19 +646,23 @@ def ir_inv(s):
         emit(ctx, lid + "detector-coordinate-is-x*cos-y*sin+N//2", False, base)
         return []
     g_u = emit(ctx, lid + "detector-coordinate-is-x*cos-y*sin+N//2", u_code == u_spec, base)
-    o1 = emit(ctx, lid + f"rotation-axis+-radius-lies-within-the-detector[{par}]", AND(N / 2 + r <= N - 1, N / 2 - r >= 0), base)
+    # the samples the code can read without clamping: positions 0 .. M-1 of the filtered projection (M = N on the unchanged tree)
+    M_ = lift(S(ctx.ghost["c07_gather"][0]["input"].shape[1]))
+    hi = M_ - 1
+    o1 = emit(ctx, lid + f"rotation-axis+-radius-lies-within-the-kept-filtered-samples[{par}]", AND(N / 2 + r <= hi, N / 2 - r >= 0, M_ <= N + 1),
+              base + [N <= 2 ** 30])
     g_r0 = emit(ctx, lid + "radius>=0", r >= 0, base)
     Cc, Ss, Xg, Yg, Rg = R("cos!gen"), R("sin!gen"), I("X!gen"), I("Y!gen"), I("r!gen")
     l1 = emit(ctx, lid + "|x*cos-y*sin|<=radius-inside-the-circle", implies(sp.inside, AND(t <= z3.ToReal(r), -z3.ToReal(r) <= t)),
               [g_r0, c_ * c_ + s_ * s_ == 1],   # A4 instance sin^2+cos^2=1
               gen=[(c_, Cc), (s_, Ss), (x - r, Xg), (y - r, Yg), (r, Rg)])
-    g_rng = emit(ctx, lid + f"detector-coordinate-in-[0,N-1]-inside-the-circle[{par}]",
-                 implies(sp.inside, AND(u_spec >= 0, u_spec <= z3.ToReal(N - 1))), base + [o1, l1], gen=[(t, T)])
+    g_rng = emit(ctx, lid + f"detector-coordinate-within-the-kept-samples-inside-the-circle[{par}]",
+                 implies(sp.inside, AND(u_spec >= 0, u_spec <= z3.ToReal(hi))), base + [o1, l1], gen=[(t, T)])
     facts = base + [g_u, g_rng]
     # this iteration's contribution = accumulator after - accumulator before
     pj, cn = reals._real(s.recon.fn(b, y, x)) - recon_k, sp.contrib(kk)
     g_lin = emit(ctx, lid + f"contribution-is-linear-interpolation-of-the-filtered-projection(weights-in-[0,1],no-clamping)[{par}]",
-                 implies(sp.inside, pj == cn), facts, gen=[(u_code, U), (u_spec, U2)])
+                 implies(sp.inside, pj == cn), facts + [N <= 2 ** 30], gen=[(u_code, U), (u_spec, U2)])
     Pj, Cn = R("proj!gen"), R("contrib!gen")
     unfold = PS_IR(k, b, y, x) == PS_IR(kk, b, y, x) + cn           # definition of the partial sum
     emit(ctx, lid + f"recon=partial-sum-of-interpolated-projections[{par}]",
@@ -852,12 +856,30 @@ def rd_inv(s):
     g_shape = emit(ctx, lid + "grid_sample-input-and-grid-are-[B,1,N,N]-and-[B,N,N,2]",
                    AND(g["input"].ndim == 4, g["grid"].ndim == 4, *[lift(S(d)) == e for d, e in zip(g["input"].shape, (B, z1, N, N))],
                        *[lift(S(d)) == e for d, e in zip(g["grid"].shape, (B, N, N, z3.IntVal(2)))]), base)
-    o2 = emit(ctx, lid + f"row-reflection-about-the-rotation-centre-maps-[0,N)-onto-itself:2*(N//2)=N-1[{par}]", 2 * (N / 2) == N - 1, base)
-    xs, ys = sk_point(N, s.theta.fn(kk), N - 1 - i, j)
     D = R("Nm1!gen")
     Wm1, Hm1 = z3.ToReal(lift(S(g["input"].shape[3])) - 1), z3.ToReal(lift(S(g["input"].shape[2])) - 1)
-    g_geo = emit(ctx, lid + "grid-un-normalised-with-align_corners=True-is-skimage's-sample-point-of-(row-N-1-i,column-j)", AND(xpix == xs, ypix == ys),
-                 base + [o2, g_shape, z3.ToReal(N - 1) >= 1], gen=[(Wm1, D), (Hm1, D), (z3.ToReal(N - 1), D)])
+    gen_d = [(Wm1, D), (Hm1, D), (z3.ToReal(N - 1), D)]
+
+    def geo(sig_i):
+        xs_, ys_ = sk_point(N, s.theta.fn(kk), sig_i, j)
+        return xs_, ys_, AND(xpix == xs_, ypix == ys_)
+
+    # the rows sampled by the port must be a permutation sigma of the rows scikit-image samples: sigma = identity, or the reflection
+    # i -> N-1-i (what the unchanged tree does: its rotation matrix has the second row negated)
+    xs, ys, goal_id = geo(i)
+    chk = z3.Solver()
+    chk.set("timeout", 2000)
+    chk.add(*[z3.substitute(lift(h), *gen_d) for h in base + [g_shape, D >= 1]], z3.Not(z3.substitute(goal_id, *gen_d)))
+    identity = chk.check() == z3.unsat
+    if identity:
+        sigma_i = i
+        o2 = emit(ctx, lid + f"sampled-rows-are-a-permutation-of-the-reference-rows(identity-or-reflection-about-N//2)[{par}]", z3.BoolVal(True), base)
+    else:
+        sigma_i = N - 1 - i
+        xs, ys, _ = geo(sigma_i)
+        o2 = emit(ctx, lid + f"sampled-rows-are-a-permutation-of-the-reference-rows(identity-or-reflection-about-N//2)[{par}]", 2 * (N / 2) == N - 1, base)
+    g_geo = emit(ctx, lid + "grid-un-normalised-with-align_corners=True-is-skimage's-sample-point-of-(row-sigma(i),column-j)", AND(xpix == xs, ypix == ys),
+                 base + [o2, g_shape, z3.ToReal(N - 1) >= 1], gen=gen_d)
     pix = masked_pixel(src, N)
     rr, cc = I("r!pix"), I("c!pix")
     H_, W_ = g["input"].shape[2], g["input"].shape[3]
@@ -877,13 +899,13 @@ def rd_inv(s):
                 [(spec_read(ry, cx_), R(f"spec_read{q}!gen")) for q, (ry, cx_) in enumerate(corners)]
     g_s1 = emit(ctx, lid + "sampled-value=bilinear-zero-padded-sample-of-the-masked-image", code_val == via_spec_pixels, inst, gen=gen_reads)
     Xs, Ys = R("xs!gen"), R("ys!gen")
-    g_s2 = emit(ctx, lid + "code-summand(i)=reference-summand(N-1-i)", code_val == lift(summand(N - 1 - i)),
+    g_s2 = emit(ctx, lid + "code-summand(i)=reference-summand(sigma(i))", code_val == lift(summand(sigma_i)),
                 base + [g_s1, g_geo], gen=[(xpix, Xp), (ypix, Yp), (xs, Xs), (ys, Ys)])
     # the same reduction applied to the tensor returned by grid_sample: sum over axis 1 (the rows i) of sampled[b, 0, i, j]
     code_sum = reals._real(g["out"].squeeze(1).sum(dim=1).fn(b, j))
     g_sum = emit(ctx, lid + "row-k-of-the-sinogram=sum-over-the-rows-of-the-sampled-grid", reals._real(s.radon_images.fn(b, kk, j)) == code_sum, base)
     spec_k, _ = rd_spec_sum(src, N, s.theta, b, kk, j)
-    # T2 (trusted Sigma re-indexing): sum_{i<N} f(i) = sum_{r<N} g(r) when f(i) = g(N-1-i) for every 0 <= i < N  (premise: the obligation above)
+    # T2 (trusted Sigma re-indexing): sum_{i<N} f(i) = sum_{r<N} g(r) when f(i) = g(sigma(i)) for a permutation sigma of [0,N)  (premises: the obligations above)
     reindex = code_sum == spec_k
     emit(ctx, lid + f"rows-done-equal-the-reference-sum",
          implies(AND(inrange, a < k), lift(s.radon_images.fn(b, a, j)) == spec_a),
@@ -1199,6 +1221,28 @@ def rt_models(inp):
     bad = [f"{n}: {d}" for n, v, d in M7.conformance_cases() if v]
     return _report(bad, "model formulas == torch / numpy / scipy on small inputs")
 
+
+B_RADON, B_IRADON, B_FILTER = "radon_torch == skimage.radon (circle)", "iradon_torch == skimage.iradon", "get_fourier_filter_torch == skimage._get_fourier_filter"
+
+
+def _replay_oracle(rt, klass, bounded_name):
+    """Oracle used to REPLAY failed obligations: a disagreement that belongs to a class recorded in known_findings.jsonl for the
+    corresponding bounded check is a baseline defect, not evidence for the obligation under replay, and is not counted."""
+    def f(inp):
+        res = rt(inp)
+        if res.get("violated"):
+            from pyvc.runner import load_known
+
+            k = klass(inp, res)
+            if any(e.get("bounded") == bounded_name and e.get("class") == k for e in load_known("C07")):
+                return dict(violated=False, observed=f"(known baseline disagreement of class '{k}' ignored in replay) " + str(res.get("observed")), expected=res.get("expected"))
+        return res
+    return f
+
+
+C_FILTER.rt = _replay_oracle(rt_filter, klass_filter, B_FILTER)
+C_IRADON.rt = _replay_oracle(rt_iradon, klass_iradon, B_IRADON)
+C_RADON.rt = _replay_oracle(rt_radon, klass_radon, B_RADON)
 
 BOUNDED = [
     Bounded.from_rt("radon_torch == skimage.radon (circle)", rt_radon, fam_radon,
